@@ -164,9 +164,11 @@ def nanfill(chk, prog):
     split_ok = "np.where(np.diff(nan_indices) > 1)[0] + 1" in ast.unparse(g.node)
     if ok and split_ok:
         chk.record("NANFILL.intervals", g.ref, "returns (first, last) of each run of consecutive NaN rows (split where the index gap exceeds 1)")
-    else:
+    elif rets and not ok:
         chk.record("NANFILL.intervals", g.ref, "returns inclusive (first, last) per run", verdict="VIOLATION")
-        chk.finding("NANFILL.intervals", CORE, "get_nan_intervals", "interval construction", "get_nan_intervals no longer returns the inclusive first/last index of each NaN run", line=g.node.lineno)
+        chk.finding("NANFILL.intervals", CORE, "get_nan_intervals", "interval construction", "get_nan_intervals builds its (first, last) pairs from something other than interval[0], interval[-1]", line=g.node.lineno)
+    else:
+        chk.error("NANFILL.intervals: get_nan_intervals is not in the recognised split-on-gaps form (cannot decide)")
 
 
 def jumps_twin(chk, prog):
